@@ -708,3 +708,62 @@ def rule_countwidth(ctx) -> RuleResult:
     if n == 0:
         raise AnalysisError("aggregate_flox: no counting kernel (nanlen) summing a mask found (anchor)")
     return res
+
+
+# ---------------------------------------------------------------------------------------------
+# R-INDEXER (C09, C05, C02): the -1 of pandas' get_indexer is consulted before the result is used as a position.
+# `A.get_indexer(B)` answers -1 for every member of B that is not in A.  Used as an index, -1 silently selects the LAST entry: a label that is
+# absent from a block would receive the intermediate of the block's last group.  Every function that subscripts with a get_indexer result
+# (directly or through a local name) also compares that result with the sentinel (== -1, != -1, >= 0, < 0) -- the mask that drives the fill.
+def rule_indexer(ctx) -> RuleResult:
+    res = RuleResult("R-INDEXER", "get_indexer results are compared with the -1 sentinel before they are used as positions", min_instances=2)
+    n_calls = 0
+    for q, f in sorted(ctx.prog.funcs.items()):
+        if isinstance(f.node, ast.Lambda):
+            continue
+        calls = [c for c in walk_own(f.node) if isinstance(c, ast.Call) and isinstance(c.func, ast.Attribute) and c.func.attr in ("get_indexer", "get_indexer_for")]
+        if not calls:
+            continue
+        # names bound to a get_indexer result
+        bound: dict[str, ast.Call] = {}
+        for a in walk_own(f.node):
+            if isinstance(a, ast.Assign) and len(a.targets) == 1 and isinstance(a.targets[0], ast.Name) and a.value in calls:
+                bound[a.targets[0].id] = a.value
+
+        def is_result(e) -> bool:
+            return e in calls or (isinstance(e, ast.Name) and e.id in bound)
+
+        def sentinel_checked(key: str) -> bool:
+            for c in walk_own(f.node):
+                if isinstance(c, ast.Compare) and len(c.ops) == 1:
+                    l, r = c.left, c.comparators[0]
+                    for x, y in ((l, r), (r, l)):
+                        if (norm(x) == key) and ((isinstance(y, ast.UnaryOp) and isinstance(y.op, ast.USub) and isinstance(y.operand, ast.Constant) and y.operand.value == 1)
+                                                 or (isinstance(y, ast.Constant) and y.value in (0, -1) and isinstance(c.ops[0], (ast.Lt, ast.GtE, ast.Eq, ast.NotEq)))):
+                            return True
+            return False
+
+        for c in calls:
+            n_calls += 1
+            key = next((nm for nm, v in bound.items() if v is c), norm(c))
+            # uses as a position: a subscript index (possibly inside a tuple index / list of indexers), or stored into an indexer list
+            used = []
+            for s in walk_own(f.node):
+                if isinstance(s, ast.Subscript) and isinstance(s.ctx, ast.Load):
+                    for x in ast.walk(s.slice):
+                        if (x is c) or (isinstance(x, ast.Name) and bound.get(x.id) is c):
+                            used.append(s)
+                if isinstance(s, ast.Assign):
+                    for t in s.targets:
+                        if isinstance(t, ast.Subscript) and ((s.value is c) or (isinstance(s.value, ast.Name) and bound.get(s.value.id) is c)):
+                            used.append(s)           # indexer[axis] = idx ; array[tuple(indexer)] follows
+            chk = sentinel_checked(key)
+            res.inst(f"{q}: {norm(c)[:50]} -> '{key[:30]}': used as a position {len(used)}x, compared with the sentinel: {chk}", f"{q}|{norm(c)[:50]}")
+            if used and not chk:
+                res.report(f"{q}|indexer-sentinel-unchecked|{norm(c)[:40]}", f.where(used[0]), q,
+                           f"'{norm(c)[:60]}' answers -1 for members that are absent, and '{key[:30]}' is used as a position ('{norm(used[0])[:60]}') without any "
+                           "comparison with -1 in this function: an absent label silently takes the LAST entry along the axis (members of one group are counted "
+                           "into another) instead of the fill value")
+    if n_calls == 0:
+        res.notes.append("no get_indexer call in the package")
+    return res
